@@ -84,6 +84,17 @@ pub fn draw_params<W: World>(w: &W, n: usize, rng: &mut Rng) -> RunParams {
     let nworld = p.range(6, 28) as usize;
     let mut ids: Vec<usize> = (0..w.corpus_len()).collect();
     p.shuffle(&mut ids);
+    // one run in three concentrates the workload on one hot key, so that buckets several batches
+    // deep (partial expiry with survivors, repeated snapshots, settlement inside a deep bucket)
+    // are not left to chance
+    if p.chance(1, 3) {
+        let hot = w.key_of(ids[0]);
+        let (mut same, other): (Vec<usize>, Vec<usize>) = ids.iter().partition(|i| w.key_of(**i) == hot && !w.is_dummy(**i));
+        same.truncate(nworld.saturating_sub(2).max(1));
+        same.extend(other.into_iter().take(2));
+        p.shuffle(&mut same);
+        ids = same;
+    }
     ids.truncate(nworld);
     // swarm: each fault kind is enabled per run with its own coin; 1 run in 6 has none
     let faults = if p.chance(1, 6) {
@@ -492,7 +503,14 @@ pub fn run<B: Backend, W: World>(be: &mut B, w: &W, params: RunParams, seed: u64
                     }
                     let ages: Vec<u64> = exec.model.buckets.values().flat_map(|b| b.entries.iter().map(|e| e.admitted)).collect();
                     if !ages.is_empty() {
-                        let adm = ages[fr.usize(ages.len())];
+                        // half of the time aim at a PARTIAL expiry of the deepest bucket that leaves at
+                        // least two survivors behind (order and index of the survivors are then observable)
+                        let deepest = exec.model.buckets.values().max_by_key(|b| b.entries.len());
+                        let aimed = match deepest {
+                            Some(b) if b.entries.len() >= 3 && fr.chance(1, 2) => Some(b.entries[fr.usize(b.entries.len() - 2)].admitted),
+                            _ => None,
+                        };
+                        let adm = aimed.unwrap_or_else(|| ages[fr.usize(ages.len())]);
                         let age = *fr.pick(&[params.max_age_ns, 20 * S, 5 * S]);
                         for dt in [age.saturating_sub(1), age, age + 1] {
                             if adm + dt > now {
@@ -503,6 +521,16 @@ pub fn run<B: Backend, W: World>(be: &mut B, w: &W, params: RunParams, seed: u64
                 }
                 Ev::Stats => {
                     let _ = step!(Step::Stats { t: now });
+                    // operator's own expiry policy, aimed: cut the deepest bucket just behind one of its
+                    // older entries so that at least two newer ones survive (strict '>' keeps the pivot)
+                    let pivot = exec.model.buckets.values().max_by_key(|b| b.entries.len()).filter(|b| b.entries.len() >= 3).map(|b| b.entries[1 + sched.usize(b.entries.len() - 2)].admitted);
+                    if let Some(adm) = pivot {
+                        if sched.chance(1, 2) && adm != u64::MAX && now > adm {
+                            if let Outcome::Evicted(n) = step!(Step::EvictOlder { t: now, max_age_ns: now - adm }) {
+                                state_changing |= n > 0;
+                            }
+                        }
+                    }
                     at!(now + sched.range(S, horizon / 3 + S), Ev::Stats);
                 }
             }
